@@ -321,3 +321,113 @@ func Harness_C03_order() {
 }
 
 var _ uint64 = math.MaxUint64
+
+// Harness_C03_real: the merged view over real multi-block tables (aligned sections of 2..3 blocks without an index, and indexed ones) is the newest-wins overlay, and seeking yields its suffix - each table is sought at the caller's key, whatever the tables before it did with the key.
+// bounds: 2 real tables (thorough 2..3): the oldest holds 7 or 14 refs A0.. in ref blocks of BlockSize 96 aligned (3 blocks without index / 6 blocks with index) and 4 reflog entries; each newer table holds 1..2 refs and 0..1 reflog entries over names chosen among existing, in-between and beyond-last ones; raw and deletion-hiding view; seek key = every string of length 0..2, log seeks with every 64-bit update index
+// covers: refs, logs
+func Harness_C03_real() {
+	cfg := Config{BlockSize: 96}
+	nOld := []int{7, 14}[VerifChoose(2)]
+	var refTabs [][]RefRecord
+	var logTabs [][]LogRecord
+	var readers []*Reader
+	var ts tabSpec
+	for i := 0; i < nOld; i++ {
+		ts.refs = append(ts.refs, RefRecord{RefName: shapeName(2 * i), UpdateIndex: 1, Value: hashWith(20, byte(i), 1)})
+	}
+	for i := 0; i < 4; i++ {
+		ts.logs = append(ts.logs, LogRecord{RefName: shapeName(2 * i), UpdateIndex: 1, Time: uint64(i + 1), New: hashWith(20, byte(i), 2), Old: hashWith(20, 0, 0), Message: "m\n"})
+	}
+	refTabs, logTabs = append(refTabs, ts.refs), append(logTabs, ts.logs)
+	readers = append(readers, writeTabSpec(cfg, ts, 1, 1, "t0"))
+	k := VerifIntRange(1, 1+VerifTier())
+	menu := []string{shapeName(0), shapeName(3), shapeName(4), shapeName(2*nOld - 2), shapeName(2*nOld + 1)}
+	for t := 1; t <= k; t++ {
+		var n tabSpec
+		ui := uint64(t + 1)
+		a := VerifChoose(len(menu))
+		r := RefRecord{RefName: menu[a], UpdateIndex: ui}
+		if VerifChoose(2) == 1 {
+			r.Value = hashWith(20, byte(0x80+t), 7)
+		}
+		n.refs = append(n.refs, r)
+		if b := []int{len(menu), a + 1, len(menu) - 1}[VerifChoose(3)]; b > a && b < len(menu) {
+			n.refs = append(n.refs, RefRecord{RefName: menu[b], UpdateIndex: ui, Value: hashWith(20, byte(0x90+t), 3)})
+		}
+		if VerifChoose(2) == 1 {
+			n.logs = append(n.logs, LogRecord{RefName: menu[a], UpdateIndex: ui, Time: uint64(10 + t), New: hashWith(20, byte(t), 4), Old: hashWith(20, 0, 0), Message: "m\n"})
+		}
+		refTabs, logTabs = append(refTabs, n.refs), append(logTabs, n.logs)
+		readers = append(readers, writeTabSpec(cfg, n, ui, ui, "t"))
+	}
+	var tabs []Table
+	for _, r := range readers {
+		tabs = append(tabs, r)
+	}
+	m, err := NewMerged(tabs, SHA1ID)
+	VerifAssert(err == nil, "newmerged")
+	if err != nil {
+		return
+	}
+	m.suppressDeletions = VerifChoose(2) == 1
+	key := symString(VerifIntRange(0, 2))
+	if VerifChoose(2) == 0 {
+		var want []RefRecord
+		for _, r := range specOverlayRefs(refTabs) {
+			if r.RefName >= key && !(m.suppressDeletions && specRefIsDeletion(&r)) {
+				want = append(want, r)
+			}
+		}
+		it, err := m.SeekRef(key)
+		VerifAssert(err == nil, "seekref-err")
+		if err != nil {
+			return
+		}
+		for i := range want {
+			var got RefRecord
+			ok, err := it.NextRef(&got)
+			VerifAssert(err == nil && ok, "merged-short")
+			if !ok || err != nil {
+				return
+			}
+			VerifAssert(got.RefName == want[i].RefName, "merged-name")
+			VerifAssert(refEq(&got, &want[i]), "merged-record")
+		}
+		var got RefRecord
+		ok, err := it.NextRef(&got)
+		VerifAssert(err == nil && !ok, "merged-extra")
+		VerifCover("refs")
+		return
+	}
+	for i := 0; i < len(key); i++ {
+		VerifAssume(key[i] != 0)
+	}
+	u := VerifU64()
+	from := &LogRecord{RefName: key, UpdateIndex: u}
+	var want []LogRecord
+	for _, l := range specOverlayLogs(logTabs) {
+		l := l
+		if !specLogLess(&l, from) {
+			want = append(want, l)
+		}
+	}
+	it, err := m.SeekLog(key, u)
+	VerifAssert(err == nil, "seeklog-err")
+	if err != nil {
+		return
+	}
+	for i := range want {
+		var got LogRecord
+		ok, err := it.NextLog(&got)
+		VerifAssert(err == nil && ok, "merged-log-short")
+		if !ok || err != nil {
+			return
+		}
+		VerifAssert(got.RefName == want[i].RefName && got.UpdateIndex == want[i].UpdateIndex, "merged-log-key")
+		VerifAssert(got.Time == want[i].Time, "merged-log-record")
+	}
+	var got LogRecord
+	ok, err := it.NextLog(&got)
+	VerifAssert(err == nil && !ok, "merged-log-extra")
+	VerifCover("logs")
+}
